@@ -380,6 +380,15 @@ func checkParallelProtocol(c *an.Ctx, id string, d *delFns) {
 		for _, r := range ff.Returns() {
 			if t.ErrShape(errResult(r)) == "nil" {
 				dlt := t.Affine(ff.Unphi(r.Results[0])).Sub(t.Affine(hi))
+				// the evaluation moved into a helper and spliced back: `h, m, err := eval(results); if err != nil
+				// { return }; h++` — the h that is incremented merges the helper's ways out, of which only the
+				// successful one is live where err is nil
+				if b, isB := r.Results[0].(*ssa.BinOp); isB && dlt.String() != "1" {
+					if k, isK := b.Y.(*ssa.Const); isK && k.Value != nil && k.Value.ExactString() == "1" && b.Op.String() == "+" {
+						dlt = t.Affine(ff.UnphiAt(b.X, r)).Sub(t.Affine(hi))
+						dlt.C++
+					}
+				}
 				c.Check(dlt.String() == "1", id, "success-reports-max-plus-one", "on success the driver reports the height after the highest one deleted", par, r, "reports "+an.Stable(t.Of(r.Results[0])), nil)
 			}
 		}
